@@ -640,7 +640,54 @@ def twin_logging(tree, relpath):
     return tree
 
 
-TWINS = [("reformat-through-unparse", twin_reformat), ("noop-statements-everywhere", twin_noops), ("rename-all-function-locals", twin_rename_locals),
+class _SwapIfElse(ast.NodeTransformer):
+    """`if c: A else: B`  ->  `if not c: B else: A`  (only ifs that have a plain else part, not elif chains)"""
+
+    def visit_If(self, node):
+        self.generic_visit(node)
+        if node.orelse and not (len(node.orelse) == 1 and isinstance(node.orelse[0], ast.If)):
+            node.test = ast.UnaryOp(ast.Not(), node.test)
+            node.body, node.orelse = node.orelse, node.body
+        return node
+
+
+def twin_swap_if_else(tree, relpath):
+    return _SwapIfElse().visit(tree)
+
+
+class _DeMorgan(ast.NodeTransformer):
+    """in if/while tests:  a and b  ->  not (not a or not b);   a != b  ->  not (a == b)"""
+
+    def _rw(self, e):
+        if isinstance(e, ast.BoolOp) and isinstance(e.op, ast.And):
+            return ast.UnaryOp(ast.Not(), ast.BoolOp(ast.Or(), [ast.UnaryOp(ast.Not(), self._rw(v)) for v in e.values]))
+        if isinstance(e, ast.BoolOp):
+            return ast.BoolOp(e.op, [self._rw(v) for v in e.values])
+        if isinstance(e, ast.UnaryOp) and isinstance(e.op, ast.Not):
+            return ast.UnaryOp(ast.Not(), self._rw(e.operand))
+        if isinstance(e, ast.Compare) and len(e.ops) == 1 and isinstance(e.ops[0], ast.NotEq):
+            return ast.UnaryOp(ast.Not(), ast.Compare(e.left, [ast.Eq()], e.comparators))
+        if isinstance(e, ast.Compare) and len(e.ops) == 1 and isinstance(e.ops[0], ast.IsNot):
+            return ast.UnaryOp(ast.Not(), ast.Compare(e.left, [ast.Is()], e.comparators))
+        return e
+
+    def visit_If(self, node):
+        self.generic_visit(node)
+        node.test = self._rw(node.test)
+        return node
+
+    def visit_While(self, node):
+        self.generic_visit(node)
+        node.test = self._rw(node.test)
+        return node
+
+
+def twin_de_morgan(tree, relpath):
+    return _DeMorgan().visit(tree)
+
+
+TWINS = [("swap-branches-of-every-if-else", twin_swap_if_else), ("de-morgan-and-negated-comparisons-in-tests", twin_de_morgan),
+         ("reformat-through-unparse", twin_reformat), ("noop-statements-everywhere", twin_noops), ("rename-all-function-locals", twin_rename_locals),
          ("invert-every-if-without-else", twin_invert_ifs), ("dict()-instead-of-{}", twin_dict_calls), ("log.debug-at-every-function-entry", twin_logging)]
 
 
